@@ -3,9 +3,9 @@ from pyvc.dsl import contract
 from pyvc.types import INT, BOOL, STR, CPS, TSeq
 
 contract('soupsieve.util.lower', params=dict(string=CPS), returns=CPS, strmode='cps',
-         ensures=['result == lower_cps(string)'],
+         ensures=['result == lower_cps(string)', 'len(result) == len(string)'],
          locals=dict(new_string=CPS), joined_locals=['new_string'],
-         loops={1: dict(var='c', invariant=['new_string == lower_upto(string, _i1)'])},
+         loops={1: dict(var='c', invariant=['new_string == lower_upto(string, _i1)', 'len(new_string) == _i1'])},
          notes='decorated with lru_cache(maxsize=512): body verified undecorated (A-lru)',
          properties=['C09', 'C11'])
 
